@@ -8,6 +8,7 @@ import (
 	"math/big"
 	"os"
 	"strings"
+	"time"
 
 	"golang.org/x/tools/go/ssa"
 	"verif/engine/smt"
@@ -215,6 +216,12 @@ func (in *Interp) slice(extra *term.Term) ([]*term.Term, bool) {
 // extra are sent to the solver; a returned model is always a model of the whole path condition
 // (the slice's model merged into the current full model).
 func (in *Interp) check(extra *term.Term, wantModel bool) (smt.Result, map[string]*big.Int, string) {
+	if !Deadline.IsZero() && time.Now().After(Deadline) {
+		// the harness' time budget is used up: end this path so that everything found so far
+		// (in particular refuted assertions) is still written out; the run is flagged incomplete
+		DeadlineHit = true
+		panic(pathEnd{endSteps, "time limit reached while deciding a query"})
+	}
 	in.Queries++
 	full := func() (smt.Result, map[string]*big.Int, string) {
 		q := make([]*term.Term, 0, len(in.pc)+1)
@@ -247,6 +254,13 @@ func (in *Interp) check(extra *term.Term, wantModel bool) (smt.Result, map[strin
 }
 
 var noSlice = os.Getenv("GOSYM_NOSLICE") != ""
+
+// Deadline is the wall-clock limit of the current harness run (zero: none); DeadlineHit records
+// that a path was cut because of it.
+var (
+	Deadline    time.Time
+	DeadlineHit bool
+)
 
 func (in *Interp) addPC(c *term.Term) {
 	if c.K == term.KTrue {
